@@ -121,6 +121,16 @@ def check(case) -> Res:
         res.cls.append("skip:code+code")
         return res
     res.cls.append("checked")
+    # A followed by its separating blank line has the block structure of A alone (container maps may extend
+    # over the blank line they consume - nothing else may change, in particular not the tight/loose flags)
+    nA = A.count("\n")
+    t_alone = norm(md.parse(A))
+    clamp = lambda ts: [dict(t, map=(None if t["map"] is None else [t["map"][0], min(t["map"][1], nA)])) for t in ts]  # noqa: E731
+    last_leaf = next((t["type"] for t in reversed(t_alone) if t["nesting"] >= 0), "")
+    if last_leaf in ("fence", "html_block", "code_block"):
+        res.cls.append("A-ends-in-verbatim(blank line may belong to it)")
+    elif clamp(tA) != clamp(t_alone):
+        res.fail("blank-line-after-A-changes-A", f"A={A!r}: {first_diff(clamp(tA), clamp(t_alone))}")
     tAB = norm(md.parse(A1 + B))
     if tAB != tA + tB:
         exp = tA + tB
